@@ -115,6 +115,9 @@ def rel(a, b):
 
 def checks_for_screen(s, p, A, tag):
     nx = s.nx_size
+    # the conditional law X | Z needs Cov_zz positive definite: where its factorisation fails there is no exact A and B, and the
+    # screen must not be built on a substitute (pseudo-inverse, regularisation) that silently breaks the two identities
+    A(("a screen is only built when its stencil covariance admits the factorisation that defines A%s" % tag, 0.0 if ic.factorisable(s) else 1.0, 0.0))
     Czz, Cxx, Czx, Cxz = ic.true_blocks(s)
     var = Cxx.max()
     cond = numpy.linalg.cond(Czz)
@@ -235,6 +238,8 @@ def falsify(ctx, deep=False):
     cases.append({"kind": "fried", "nx": rng.choice([5, 9]), "extra": rng.choice([1, 2]), "ps": 0.1, "r0": 0.2, "L0": 25.0, "family": False, "long_history": rng.randint(40, 80)})
     if deep:
         cases.append({"kind": "fried", "nx": rng.choice([40, 65]), "extra": 1, "ps": 0.1, "r0": 0.2, "L0": 25.0, "family": False, "long_history": rng.randint(70, 100)})
+    # sampling so fine against the outer scale that the stencil covariance is numerically singular (the library refuses these)
+    cases.append({"kind": rng.choice(["vk", "fried"]), "nx": rng.choice([8, 16]), "extra": 2, "ps": rng.choice([0.01, 1e-4]), "r0": 0.2, "L0": rng.choice([1e3, 1e4]), "family": False})
     # the screen is wider than the outer scale (separations beyond L0 inside the stencil)
     cases.append({"kind": rng.choice(["vk", "fried"]), "nx": rng.choice([9, 17]), "extra": 2, "ps": rng.uniform(0.5, 1.5), "r0": 0.3, "L0": rng.uniform(2.0, 6.0), "family": False})
     for p in cases:
